@@ -19,6 +19,9 @@
 #include <functional>
 #include <thread>
 #include <mutex>
+#include <unistd.h>
+#include <poll.h>
+#include <errno.h>
 
 #include "colvarmodule.h"
 #include "colvar.h"
@@ -37,6 +40,7 @@ struct vsim_engine {
   double L[3] = {0, 0, 0};
   double dt = 1.0, temperature = 0.0;
   bool provide_total_forces = true;
+  bool tf_only_on_request = false;             // `tfonrequest 1`: export total forces only while Colvars requests them (NAMD/LAMMPS-like)
   bool same_step = true;                       // total_forces_same_step()
   bool include_cv_forces = true;               // lagged mode: total force includes Colvars' own force
   std::string prefix = "";
@@ -47,6 +51,12 @@ struct vsim_engine {
   std::string smp = "serial";                  // serial | omp | perm
   std::vector<int> perm;                       // explicit permutation for "perm"
   int nthreads = 1;
+  // replicas (multiple walkers): this process is walker rep_index of rep_num; rep_fd[p] is a connected
+  // stream socket to walker p (-1 for itself).  Empty rep_fd = no replica support (the default).
+  int rep_index = 0, rep_num = 1;
+  std::vector<int> rep_fd;
+  int rep_timeout_ms = 30000;
+  long rep_msgs_sent = 0, rep_msgs_recv = 0, rep_barriers = 0, rep_errors = 0;
   std::vector<int> assign;                     // (C12) explicit thread of the k-th executed item (default: k mod nthreads)
   std::vector<std::pair<std::string, double> > script_forces;  // (C12) scripted-force task: force added to named scalar variables
   void resize(int n) {
@@ -198,6 +208,83 @@ public:
     atoms_positions[index] = eng->pos[aid];
     updated_masses_ = updated_charges_ = true;
     return index;
+  }
+
+  // ---- replicas: colvarproxy_replicas over stream sockets between walker processes.
+  // Every message is framed (1 byte tag 'D' data / 'B' barrier, 4 bytes length); the barrier goes
+  // through walker 0 on the same sockets.  All reads and writes time out (rep_timeout_ms) so that a
+  // broken protocol shows up as a communication error, never as a hang.
+  bool rep_on() const { return eng->rep_fd.size() > 0 && eng->rep_num > 1; }
+  int check_replicas_enabled() override { return rep_on() ? COLVARS_OK : COLVARS_NOT_IMPLEMENTED; }
+  int replica_index() override { return rep_on() ? eng->rep_index : 0; }
+  int num_replicas() override { return rep_on() ? eng->rep_num : 1; }
+  bool rep_io(int fd, char *buf, size_t n, bool wr)
+  {
+    size_t done = 0;
+    while (done < n) {
+      struct pollfd pf; pf.fd = fd; pf.events = wr ? POLLOUT : POLLIN; pf.revents = 0;
+      int pr = poll(&pf, 1, eng->rep_timeout_ms);
+      if (pr == 0) return false;
+      if (pr < 0) { if (errno == EINTR) continue; return false; }
+      ssize_t k = wr ? ::write(fd, buf + done, n - done) : ::read(fd, buf + done, n - done);
+      if (k < 0) { if (errno == EINTR || errno == EAGAIN) continue; return false; }
+      if (k == 0) return false;
+      done += (size_t) k;
+    }
+    return true;
+  }
+  bool rep_send_frame(int dest, char tag, char *data, int len)
+  {
+    if (dest < 0 || dest >= (int) eng->rep_fd.size() || eng->rep_fd[dest] < 0) return false;
+    char hdr[5]; hdr[0] = tag; memcpy(hdr + 1, &len, 4);
+    if (!rep_io(eng->rep_fd[dest], hdr, 5, true)) return false;
+    if (len > 0 && !rep_io(eng->rep_fd[dest], data, (size_t) len, true)) return false;
+    return true;
+  }
+  int rep_recv_frame(int src, char tag, char *data, int buf_len)
+  {
+    if (src < 0 || src >= (int) eng->rep_fd.size() || eng->rep_fd[src] < 0) return -1;
+    char hdr[5]; int len = 0;
+    if (!rep_io(eng->rep_fd[src], hdr, 5, false)) return -1;
+    memcpy(&len, hdr + 1, 4);
+    if (len < 0) return -1;
+    int keep = std::min(len, buf_len);
+    if (keep > 0 && !rep_io(eng->rep_fd[src], data, (size_t) keep, false)) return -1;
+    for (int rest = len - keep; rest > 0; ) {       // message longer than the buffer: drop the tail
+      char junk[256]; int k = std::min(rest, 256);
+      if (!rep_io(eng->rep_fd[src], junk, (size_t) k, false)) return -1;
+      rest -= k;
+    }
+    if (hdr[0] != tag) return -1;
+    return keep;
+  }
+  int replica_comm_send(char *msg_data, int msg_len, int dest_rep) override
+  {
+    if (!rep_on()) return COLVARS_NOT_IMPLEMENTED;
+    if (!rep_send_frame(dest_rep, 'D', msg_data, msg_len)) { eng->rep_errors++; return 0; }
+    eng->rep_msgs_sent++;
+    return msg_len;
+  }
+  int replica_comm_recv(char *msg_data, int buf_len, int src_rep) override
+  {
+    if (!rep_on()) return COLVARS_NOT_IMPLEMENTED;
+    int r = rep_recv_frame(src_rep, 'D', msg_data, buf_len);
+    if (r < 0) { eng->rep_errors++; return 0; }
+    eng->rep_msgs_recv++;
+    return r;
+  }
+  void replica_comm_barrier() override
+  {
+    if (!rep_on()) return;
+    eng->rep_barriers++;
+    char c = 0;
+    if (eng->rep_index == 0) {
+      for (int p = 1; p < eng->rep_num; p++) if (rep_recv_frame(p, 'B', &c, 0) < 0) eng->rep_errors++;
+      for (int p = 1; p < eng->rep_num; p++) if (!rep_send_frame(p, 'B', &c, 0)) eng->rep_errors++;
+    } else {
+      if (!rep_send_frame(0, 'B', &c, 0)) eng->rep_errors++;
+      if (rep_recv_frame(0, 'B', &c, 0) < 0) eng->rep_errors++;
+    }
   }
 
   // ---- SMP: explicit schedules through the virtual interface
@@ -361,7 +448,7 @@ public:
     for (size_t i = 0; i < atoms_ids.size(); i++) {
       int aid = atoms_ids[i];
       atoms_positions[i] = eng->pos[aid];
-      if (eng->provide_total_forces) {
+      if (eng->provide_total_forces && (!eng->tf_only_on_request || total_force_requested)) {
         if (eng->same_step) {
           atoms_total_forces[i] = eng->eforce[aid];
         } else {
@@ -541,11 +628,37 @@ struct vsim_session {
     else if (cmd == "temperature") { eng.temperature = num(a[0]); if (proxy) { proxy->set_target_temperature(eng.temperature); proxy->colvars->update_engine_parameters(); } }
     else if (cmd == "samestep") { eng.same_step = atoi(a[0].c_str()) != 0; }
     else if (cmd == "totalforces") { eng.provide_total_forces = atoi(a[0].c_str()) != 0; }
+    else if (cmd == "tfonrequest") { eng.tf_only_on_request = atoi(a[0].c_str()) != 0; }
     else if (cmd == "includecv") { eng.include_cv_forces = atoi(a[0].c_str()) != 0; }
     else if (cmd == "prefix") { eng.prefix = a.size() ? a[0] : ""; }
+    else if (cmd == "outprefix") {
+      // change the engine's output prefix of the live module and let it (re)open its outputs, as
+      // engines do after reading the configuration and at the start of a run with a new output name
+      eng.prefix = a.size() ? a[0] : "";
+      cvm::clear_error();
+      proxy->set_output_prefix(eng.prefix);
+      int err = proxy->colvars->setup_output();
+      o << "OUTPREFIX err=" << vs_errclass(err | cvm::get_error()) << "\n";
+      cvm::clear_error();
+    }
     else if (cmd == "restartfreq") { eng.restart_freq = atoi(a[0].c_str()); }
     else if (cmd == "gauss") { eng.gauss.clear(); eng.gauss_pos = 0; for (auto &s : a) eng.gauss.push_back(num(s)); }
     else if (cmd == "smp") { eng.smp = a[0]; if (a.size() > 1) eng.nthreads = atoi(a[1].c_str()); }
+    else if (cmd == "replicas") {
+      // replicas <index> <num> <fd to walker 0> <fd to walker 1> ... (-1 for itself) | replicas off
+      eng.rep_fd.clear(); eng.rep_index = 0; eng.rep_num = 1;
+      if (a.size() >= 2 && a[0] != "off") {
+        eng.rep_index = atoi(a[0].c_str()); eng.rep_num = atoi(a[1].c_str());
+        for (size_t i = 2; i < a.size(); i++) eng.rep_fd.push_back(atoi(a[i].c_str()));
+        eng.rep_fd.resize(eng.rep_num, -1);
+      }
+    }
+    else if (cmd == "reptimeout") { eng.rep_timeout_ms = atoi(a[0].c_str()); }
+    else if (cmd == "repstat") {
+      o << "REPSTAT index=" << eng.rep_index << " num=" << eng.rep_num << " sent=" << eng.rep_msgs_sent
+        << " recv=" << eng.rep_msgs_recv << " barriers=" << eng.rep_barriers << " errors=" << eng.rep_errors << "\n";
+    }
+    else if (cmd == "sync") { o << "SYNC" << (a.size() ? " " + a[0] : std::string("")) << "\n"; o.flush(); }
     else if (cmd == "perm") { eng.perm.clear(); for (auto &s : a) eng.perm.push_back(atoi(s.c_str())); }
     else if (cmd == "assign") { eng.assign.clear(); for (auto &s : a) eng.assign.push_back(atoi(s.c_str())); }
     else if (cmd == "forcescript") { eng.script_forces.clear(); for (size_t i = 0; i + 1 < a.size(); i += 2) eng.script_forces.push_back(std::make_pair(a[i], num(a[i + 1]))); }
